@@ -694,17 +694,22 @@ def parse_width(width: str) -> tuple[int, Optional[int]]:
     min_width: Union[str, int]
     max_width: Union[str, int, None]
 
+    def width_value(digits: str) -> int:
+        if len(digits) > 6:
+            raise xpath_error('FOFD1340', f'Width modifier {width!r} is too large')
+        return int(digits)
+
     if WIDTH_PATTERN.match(width) is None:
         raise xpath_error('FOFD1340', f'Invalid width modifier {width!r}')
     elif '-' not in width:
         if width == '*':
             return 0, None
-        min_width = int(width)
+        min_width = width_value(width)
         if not min_width:
             raise xpath_error('FOFD1340', f'Invalid width modifier {width!r}')
         return min_width, None
     elif '*' not in width:
-        min_width, max_width = map(int, width.split('-'))
+        min_width, max_width = map(width_value, width.split('-'))
         if not min_width or max_width < min_width:
             raise xpath_error('FOFD1340', f'Invalid width modifier {width!r}')
         return min_width, max_width
@@ -713,14 +718,14 @@ def parse_width(width: str) -> tuple[int, Optional[int]]:
         if min_width == '*':
             min_width = 0
         else:
-            min_width = int(min_width)
+            min_width = width_value(min_width)
             if not min_width:
                 raise xpath_error('FOFD1340', f'Invalid width modifier {width!r}')
 
         if max_width == '*':
             return min_width, None
         else:
-            max_width = int(max_width)
+            max_width = width_value(max_width)
             if not max_width:
                 raise xpath_error('FOFD1340', f'Invalid width modifier {width!r}')
             return min_width, max_width
